@@ -47,6 +47,9 @@ type Workload struct {
 	V2      []string            `json:"v2,omitempty"` // v2 scripts, loaded once and run by several tasks
 	Points  []corpus.PointT     `json:"points"`
 	Tasks   [][]TOp             `json:"tasks"`
+	// ConcFirst: the concurrent phase runs before the solo reference (which uses its own
+	// private load anyway), so nothing has been warmed up sequentially when tasks interleave.
+	ConcFirst bool `json:"conc_first,omitempty"`
 }
 
 type Prop struct{}
@@ -59,6 +62,15 @@ func (Prop) Size(tier string) int {
 	return 4000
 }
 func (Prop) FreshProcessShrink() bool { return true }
+
+// ProcessesPerWorker: many short-lived worker processes, so that "first use in this process"
+// happens often - and, for plans with ConcFirst, while tasks interleave.
+func (Prop) ProcessesPerWorker(tier string) int {
+	if tier == "thorough" {
+		return 40
+	}
+	return 8
+}
 func (Prop) Rule() string {
 	return "plan = load phase (1-3 script sets with grok/add_pattern, use chains, loops, json/xml/sql builtins, default_time, key plumbing; loaded once) + concurrent phase of 2-16 simulated caller tasks, each parsing sources (distinct, identical, invalid, recover-tripping), loading private sets, or running one of the shared loaded scripts 1-5 times on a private point; the seeded scheduler passes the turn at yield points with a per-plan density from 'run to completion in random order' to 'switch at almost every step'; evaluation = one concurrent phase (plus its solo reference); non-trivial = at least 2 tasks took turns at least once and a shared script was run by 2 tasks or two parses overlapped; distinct = hash of (workload, switch sequence)"
 }
@@ -136,6 +148,7 @@ func (Prop) Generate(seed uint64, tier string) *core.Plan {
 		}
 		w.Tasks = append(w.Tasks, ops)
 	}
+	w.ConcFirst = r.Intn(2) == 0
 	p := &core.Plan{Property: "C16", Version: core.HarnessVersion, Seed: seed, Tier: tier,
 		ChooserSeed: simrt.Mix(seed, 16),
 		Rates: simrt.Rates{
@@ -399,38 +412,60 @@ func (Prop) Run(p *core.Plan) *core.Result {
 	// on a private second load of the same sets - the shared objects are first
 	// touched by the concurrent phase, so anything installed lazily at first use
 	// is installed while tasks interleave
-	shSolo := &shared{w: &w, base: world.BaseTime, calls: sh.calls, checks: sh.checks}
-	shSolo.loadV2(len(w.Tasks))
-	for _, set := range w.Sets {
-		src := map[string]string{}
-		for k, v := range set {
-			src[k] = v
-		}
-		okM, errM := engine.ParseScript(src, sh.calls, sh.checks)
-		shSolo.loaded = append(shSolo.loaded, okM)
-		shSolo.lerrs = append(shSolo.lerrs, errM)
-	}
+	var shSolo *shared
 	solo := make([][]string, len(w.Tasks))
-	for i, ops := range w.Tasks {
-		i, ops := i, ops
-		pv, blown := core.Guard(func() { solo[i] = shSolo.doOps(ops) })
-		if blown {
-			simrt.End()
-			return &core.Result{Infra: "solo reference exceeded the step budget"}
+	runSolo := func() string {
+		shSolo = &shared{w: &w, base: world.BaseTime, calls: sh.calls, checks: sh.checks}
+		shSolo.loadV2(len(w.Tasks))
+		for _, set := range w.Sets {
+			src := map[string]string{}
+			for k, v := range set {
+				src[k] = v
+			}
+			okM, errM := engine.ParseScript(src, sh.calls, sh.checks)
+			shSolo.loaded = append(shSolo.loaded, okM)
+			shSolo.lerrs = append(shSolo.lerrs, errM)
 		}
-		if pv != nil {
-			solo[i] = []string{fmt.Sprintf("PANIC %v", pv)}
+		for i, ops := range w.Tasks {
+			i, ops := i, ops
+			pv, blown := core.Guard(func() { solo[i] = shSolo.doOps(ops) })
+			if blown {
+				return "solo reference exceeded the step budget"
+			}
+			if pv != nil {
+				solo[i] = []string{fmt.Sprintf("PANIC %v", pv)}
+			}
 		}
+		return ""
 	}
-	soloEvents := world.Events
-	// concurrent phase
 	got := make([][]string, len(w.Tasks))
-	fns := make([]func(), len(w.Tasks))
-	for i := range w.Tasks {
-		i := i
-		fns[i] = func() { got[i] = sh.doOps(w.Tasks[i]) }
+	var rs []simrt.TaskResult
+	runConc := func() {
+		fns := make([]func(), len(w.Tasks))
+		for i := range w.Tasks {
+			i := i
+			fns[i] = func() { got[i] = sh.doOps(w.Tasks[i]) }
+		}
+		rs = simrt.RunTasks(fns)
 	}
-	rs := simrt.RunTasks(fns)
+	concBlown := false
+	if w.ConcFirst {
+		runConc()
+		concBlown = world.Blown
+		simrt.SetBudget(3000000)
+		if msg := runSolo(); msg != "" {
+			simrt.End()
+			return &core.Result{Infra: msg}
+		}
+	} else {
+		if msg := runSolo(); msg != "" {
+			simrt.End()
+			return &core.Result{Infra: msg}
+		}
+		simrt.SetBudget(3000000)
+		runConc()
+		concBlown = world.Blown
+	}
 	res.Evals = 1
 	switches := world.Fired[simrt.KSched]
 	res.Faults["task_switch"] = int(switches)
@@ -438,7 +473,6 @@ func (Prop) Run(p *core.Plan) *core.Result {
 	res.Recorded = simrt.End()
 	res.Events = world.Events
 	res.Digest = world.Digest
-	_ = soloEvents
 	// (1) race reports
 	races := raceErrors() - races0
 	report := newRaceReports()
@@ -452,7 +486,7 @@ func (Prop) Run(p *core.Plan) *core.Result {
 	// (3) panics, (2) results
 	for i := range w.Tasks {
 		if rs[i].Panic != nil {
-			if world.Blown {
+			if concBlown {
 				res.Violation = &core.Violation{Class: "C16/no-return", Key: "no-return", Detail: fmt.Sprintf("task %d did not finish within the step budget in the concurrent phase (it did when run alone)", i)}
 			} else if len(solo[i]) == 1 && strings.HasPrefix(solo[i][0], "PANIC") {
 				continue // the same operation panics alone as well: not a concurrency matter
